@@ -22,7 +22,10 @@ META = {
               'payload content symbolic; reads unsegmented (C01 covers '
               'segmentation); versions 757 and 47; bound on reads after '
               'end-of-stream: 8 (unwinding assertion at 2000 reads, then '
-              'confirmed by a concrete replay under a watchdog)',
+              'confirmed by a concrete replay under a watchdog); epipe '
+              'instances: after the server has sent its last byte the '
+              'first client send() may fail with EPIPE (symbolic, sticky); '
+              'play_big: a 16 KiB frame (3-byte length prefix), every cut',
     'outside': 'thread interleavings; read segmentation (C01)',
     'assumptions': [
         'E-stream with truncation: read() returns b"" forever once the cut '
@@ -97,9 +100,15 @@ def truncated(ctx, conversation, pv=757, n_max=None, sentinel=False,
         history.append([0x7F] + list(bytes_items(ctx.bytes('unk', 4))))
         history.append(cb.PluginMessagePacket(channel='ch',
                                               data=ctx.bytes('pm', 4)))
+    if conversation == 'play_big':
+        # one frame with a 3-byte length prefix (16 KiB of concrete zeros),
+        # then a small one
+        history = [cb.PluginMessagePacket(channel='ch', data=bytes(16400)),
+                   history[0]]
     threshold = 256 if conversation == 'play_z' else None
     n_total = {'status': 200, 'play': 200, 'play_z': 200,
-               'connect_status': 200, 'enc': 240}[conversation]
+               'connect_status': 200, 'enc': 240,
+               'play_big': 16600}[conversation]
     cut = ctx.int('cut', 0, n_total)
 
     zl = netenv.ZlibStub()
@@ -256,6 +265,11 @@ def instances(tier, seed):
                             W=192 if conv == 'enc' else 96,
                             budget_s=1800, max_decisions=100000,
                             conc_timeout_s=6))
+    out.append(Instance('truncated:play_big:757', 'truncated',
+                        {'conversation': 'play_big', 'pv': 757}, W=96,
+                        budget_s=1800, max_decisions=100000,
+                        conc_timeout_s=10,
+                        note='a frame with a 3-byte length prefix'))
     # ... and the client's own writes may fail once the server has closed
     for conv, pv in (('play', 757), ('play_z', 47), ('enc', 757)):
         out.append(Instance('truncated:%s:%d:epipe' % (conv, pv),
